@@ -242,10 +242,20 @@ func GenerateRoutes(
 		return err
 	}
 
-	err = os.WriteFile(args.OutputPath, []byte(formattedOutput), getOutputFileMod(args.OutputFilePerms))
+	outputFileMod := getOutputFileMod(args.OutputFilePerms)
+	err = os.WriteFile(args.OutputPath, []byte(formattedOutput), outputFileMod)
 	if err != nil {
 		logger.Fatal("Could not write output file at '%s' with permissions '%v' - %v", args.OutputPath, args.OutputFilePerms, err)
 		return err
+	}
+
+	// os.WriteFile applies the mode only when it creates the file; when permissions were
+	// explicitly configured, make sure a file that already existed ends up with them too
+	if len(args.OutputFilePerms) > 0 {
+		if err = os.Chmod(args.OutputPath, outputFileMod); err != nil {
+			logger.Fatal("Could not set permissions '%v' on output file '%s' - %v", args.OutputFilePerms, args.OutputPath, err)
+			return err
+		}
 	}
 
 	return nil
